@@ -243,7 +243,10 @@ class GridSearchOracle(oracle_module.Oracle):
             if hp.name not in a:
                 continue
 
-            if a[hp.name] == b[hp.name]:
+            # `b` may belong to a trial started before this hp was discovered:
+            # that trial runs with the default value.
+            b_value = b.get(hp.name, hp.default)
+            if a[hp.name] == b_value:
                 continue
 
             # Get a ordered list of the values of the hp.
@@ -253,7 +256,7 @@ class GridSearchOracle(oracle_module.Oracle):
             value_list.insert(0, hp.default)
 
             index_a = value_list.index(a[hp.name])
-            index_b = value_list.index(b[hp.name])
+            index_b = value_list.index(b_value)
             return -1 if index_a < index_b else 1
 
         return 0
@@ -291,6 +294,9 @@ class GridSearchOracle(oracle_module.Oracle):
             all_values[hp.name] = [hp.default] + value_list
         default_values = {hp.name: hp.default for hp in hps.space}
         hps.values = copy.deepcopy(values)
+        # `values` may come from a trial that ended before some hps were
+        # discovered: they take their default value.
+        hps.ensure_active_values()
 
         bumped_value = False
 
